@@ -115,7 +115,7 @@ Print Assumptions cleanup_never_stranded.
 Print Assumptions cbody_no_assert_exit.
 Print Assumptions assertion_never_fails.
 Print Assumptions cleanup_never_refused.
-Print Assumptions stacks_never_empty.
+Print Assumptions stacks_never_empty_reach.
 Print Assumptions paused_only_by_task.
 Print Assumptions interrupted_idle_cause_full.
 Print Assumptions interrupted_idle_cause.
